@@ -13,8 +13,8 @@ Proved here, from the writes-only theorem of the engine (`HexProofs/Writes/Engin
       `calculate / calculate_index / purge / recalculate / append` – provided `a`'s tree neither writes under nor
       can read a name of the other members (distinct names, no input dependency).  Proof: both Hexitals are in
       step with the same standalone twin (`member_twin`, built on the read-set locality of all 28 kinds).
-Stated, not proved (`presence_FULL`): the same for a member WITH its own timeframe and for programs that
-also add / remove indicators.
+      The programs may also add further members and remove other members.
+Stated, not proved (`presence_FULL`): the same for a member WITH its own timeframe.
 -/
 namespace Hex.C13
 open Hex
@@ -134,29 +134,37 @@ theorem othersNames_spec (nm : String) (ms : List (Member F)) (m : Member F) (hm
     (hn : m.tree.name ≠ nm) : ∀ k, k ∈ m.tree.allNames → k ∈ othersNames nm ms :=
   fun k hk => List.mem_flatMap.2 ⟨m, hm, by simp [hn, hk]⟩
 
-/-- **The readings of `a` do not depend on which other members are registered, nor on the order.**
-Two Hexitals built from the same candles with member lists `ms₁`, `ms₂` that both contain `a` (without a
-timeframe of its own) and driven with the same program return, for every reading name of `a`, the same
-column; and store, under every name of `a`'s tree, the same readings on the same collapsed candles. -/
+/-- **The readings of `a` do not depend on which other members are registered, on the order, or on
+what is done to the others.**  Two Hexitals built from the same candles with member lists `ms₁`, `ms₂`
+that both contain `a` (without a timeframe of its own) and driven with programs `ops₁`, `ops₂` that act
+alike on `a` (`hsame`: the standalone twin of `a` ends in the same state – e.g. the same program, or
+programs that differ by `add_indicator` / `remove_indicator` / `purge` / `recalculate` of OTHER members)
+return, for every reading name of `a`, the same column; and store, under every name of `a`'s tree, the
+same readings on the same collapsed candles.  `N₁`, `N₂` bound the names of all the other members that
+ever appear (constructor and `add_indicator`). -/
 theorem presence (cfg : MgrCfg) (tf : Option String) (init : List (Candle F)) (ms₁ ms₂ : List (Member F))
-    (a : Member F) (ops : List (TwinOp F)) (H₁ H₂ : Hexital F)
+    (a : Member F) (N₁ N₂ : List String) (ops₁ ops₂ : List (TwinOp F)) (H₁ H₂ : Hexital F)
     (h₁ : a ∈ Hexital.dedupe ms₁) (h₂ : a ∈ Hexital.dedupe ms₂) (hatf : a.tfName = none)
-    (hok₁ : TreeOK (othersNames a.tree.name (Hexital.dedupe ms₁)) a.tree)
-    (hok₂ : TreeOK (othersNames a.tree.name (Hexital.dedupe ms₂)) a.tree)
-    (hr₁ : runHexital cfg tf init ms₁ ops = .ok H₁) (hr₂ : runHexital cfg tf init ms₂ ops = .ok H₂) :
-    (∀ name, (splitDot name).headD "" = a.tree.name →
-        readOK (othersNames a.tree.name (Hexital.dedupe ms₁)) name = true →
-        readOK (othersNames a.tree.name (Hexital.dedupe ms₂)) name = true →
+    (ho₁ : ∀ k, k ∈ othersNames a.tree.name (Hexital.dedupe ms₁) → k ∈ N₁)
+    (ho₂ : ∀ k, k ∈ othersNames a.tree.name (Hexital.dedupe ms₂) → k ∈ N₂)
+    (hok₁ : TreeOK N₁ a.tree) (hok₂ : TreeOK N₂ a.tree)
+    (hops₁ : ∀ op, op ∈ ops₁ → op.OK N₁ a.tree.name) (hops₂ : ∀ op, op ∈ ops₂ → op.OK N₂ a.tree.name)
+    (hsame : runTwin a.tree cfg init ops₁ = runTwin a.tree cfg init ops₂)
+    (hr₁ : runHexital cfg tf init ms₁ ops₁ = .ok H₁) (hr₂ : runHexital cfg tf init ms₂ ops₂ = .ok H₂) :
+    (∀ name, (splitDot name).headD "" = a.tree.name → readOK N₁ name = true → readOK N₂ name = true →
         H₁.readingAsList name = H₂.readingAsList name) ∧
     (∃ hi₁ m₁ hi₂ m₂, dlookup a.tree.name H₁.indicators = some hi₁ ∧ dlookup hi₁.mgrKey H₁.managers = some m₁ ∧
         dlookup a.tree.name H₂.indicators = some hi₂ ∧ dlookup hi₂.mgrKey H₂.managers = some m₂ ∧
         m₁.candles.map Candle.core = m₂.candles.map Candle.core ∧
         ∀ k, k ∈ a.tree.allNames → storedUnder k m₁.candles = storedUnder k m₂.candles) := by
-  obtain ⟨t₁, e₁, ht₁, inv₁⟩ := member_twin cfg tf init ms₁ a ops H₁ h₁ hatf
-    (fun m hm hn => othersNames_spec _ _ m hm hn) hok₁ hr₁
-  obtain ⟨t₂, e₂, ht₂, inv₂⟩ := member_twin cfg tf init ms₂ a ops H₂ h₂ hatf
-    (fun m hm hn => othersNames_spec _ _ m hm hn) hok₂ hr₂
-  have : t₁ = t₂ := by rw [e₁] at e₂; cases e₂; rfl
+  obtain ⟨t₁, e₁, ht₁, inv₁⟩ := member_twin cfg tf init ms₁ a ops₁ H₁ h₁ hatf
+    (fun m hm hn k hk => ho₁ k (othersNames_spec _ _ m hm hn k hk)) hok₁ hops₁ hr₁
+  obtain ⟨t₂, e₂, ht₂, inv₂⟩ := member_twin cfg tf init ms₂ a ops₂ H₂ h₂ hatf
+    (fun m hm hn k hk => ho₂ k (othersNames_spec _ _ m hm hn k hk)) hok₂ hops₂ hr₂
+  have : t₁ = t₂ := by
+    have e := hsame
+    unfold runTwin at e
+    rw [e₁, e₂] at e; cases e; rfl
   subst this
   refine ⟨fun name hp r₁ r₂ => (inv₁.column name hp r₁).trans (inv₂.column name hp r₂).symm, ?_⟩
   obtain ⟨hi₁, m₁, a1, _, a3, _, a5, a6⟩ := inv₁.readings (ht₁ ▸ hok₁)
@@ -167,19 +175,21 @@ theorem presence (cfg : MgrCfg) (tf : Option String) (init : List (Candle F)) (m
 /-- **General statement (not proved).**  As `presence`, but (i) without the restriction that `a` has no
 timeframe of its own – a member with a timeframe lives on a manager that is created, when the member is
 attached, from the default manager's candles: the proof needs that this creation commutes with dropping
-the other members' readings (true: a fresh Hexital carries no readings; after `add_indicator` on a
-calculated Hexital the new manager is built from reset candles) – and (ii) for programs that also contain
-`add_indicator` / `remove_indicator`.  Neither is covered by `member_twin`. -/
+the other members' readings (expected to hold: a fresh Hexital carries no readings; after `add_indicator` on a
+calculated Hexital the new manager is built from reset candles) – which `member_twin` does not cover
+(its twin is a standalone indicator over the default manager's configuration). -/
 def presence_FULL : Prop :=
   ∀ {F : Type} [PyF F] (cfg : MgrCfg) (tf : Option String) (init : List (Candle F)) (ms₁ ms₂ : List (Member F))
-    (a : Member F) (ops : List (TwinOp F)) (H₁ H₂ : Hexital F),
+    (a : Member F) (N₁ N₂ : List String) (ops₁ ops₂ : List (TwinOp F)) (H₁ H₂ : Hexital F),
     a ∈ Hexital.dedupe ms₁ → a ∈ Hexital.dedupe ms₂ →
-    TreeOK (othersNames a.tree.name (Hexital.dedupe ms₁)) a.tree →
-    TreeOK (othersNames a.tree.name (Hexital.dedupe ms₂)) a.tree →
-    runHexital cfg tf init ms₁ ops = .ok H₁ → runHexital cfg tf init ms₂ ops = .ok H₂ →
-    ∀ name, (splitDot name).headD "" = a.tree.name →
-      readOK (othersNames a.tree.name (Hexital.dedupe ms₁)) name = true →
-      readOK (othersNames a.tree.name (Hexital.dedupe ms₂)) name = true →
+    (∀ k, k ∈ othersNames a.tree.name (Hexital.dedupe ms₁) → k ∈ N₁) →
+    (∀ k, k ∈ othersNames a.tree.name (Hexital.dedupe ms₂) → k ∈ N₂) →
+    TreeOK N₁ a.tree → TreeOK N₂ a.tree →
+    (∀ op, op ∈ ops₁ → op.OK N₁ a.tree.name) → (∀ op, op ∈ ops₂ → op.OK N₂ a.tree.name) →
+    ops₁.filter (fun op => match op with | .add _ => false | .remove (some _) => false | _ => true)
+      = ops₂.filter (fun op => match op with | .add _ => false | .remove (some _) => false | _ => true) →
+    runHexital cfg tf init ms₁ ops₁ = .ok H₁ → runHexital cfg tf init ms₂ ops₂ = .ok H₂ →
+    ∀ name, (splitDot name).headD "" = a.tree.name → readOK N₁ name = true → readOK N₂ name = true →
       H₁.readingAsList name = H₂.readingAsList name
 
 /-! ### non-vacuity: a concrete Hexital (toy carrier `Int`) on which every hypothesis above holds -/
@@ -254,20 +264,26 @@ def exOps : List (TwinOp Int) :=
   [.calculate none, .append [exCandle 16, exCandle 12], .purge (some "RSI_2"), .calculateIndex none 3,
    .recalculate (some "SMA_2"), .append [exCandle 18], .calculate (some "RSI_2")]
 
+/-- `N₁ = N₂ =` the names of `RSI_2`; three worlds: `SMA_2` alone (the other member is added later by
+`add_indicator`), `SMA_2` before and after `RSI_2`; the programs act alike on the twin -/
 example :
     (exA ∈ Hexital.dedupe [exA] ∧ exA ∈ Hexital.dedupe [exA, exB] ∧ exA ∈ Hexital.dedupe [exB, exA]) ∧
-    treeOKb (othersNames "SMA_2" (Hexital.dedupe [exA])) exA.tree = true ∧
-    treeOKb (othersNames "SMA_2" (Hexital.dedupe [exA, exB])) exA.tree = true ∧
-    treeOKb (othersNames "SMA_2" (Hexital.dedupe [exB, exA])) exA.tree = true ∧
-    readOK (othersNames "SMA_2" (Hexital.dedupe [exB, exA])) "SMA_2" = true ∧
-    isOk (runHexital {} none exCandles [exA] exOps) = true ∧
-    isOk (runHexital {} none exCandles [exA, exB] exOps) = true ∧
-    isOk (runHexital {} none exCandles [exB, exA] exOps) = true := by
-  refine ⟨⟨?_, ?_, ?_⟩, ?_⟩
+    ((othersNames "SMA_2" (Hexital.dedupe [exA])).all exB.tree.allNames.contains = true ∧
+     (othersNames "SMA_2" (Hexital.dedupe [exA, exB])).all exB.tree.allNames.contains = true ∧
+     (othersNames "SMA_2" (Hexital.dedupe [exB, exA])).all exB.tree.allNames.contains = true ∧
+     treeOKb exB.tree.allNames exA.tree = true ∧
+     (TwinOp.add [exB] :: exOps).all (TwinOp.okb exB.tree.allNames "SMA_2") = true ∧
+     readOK exB.tree.allNames "SMA_2" = true ∧
+     isOk (runHexital {} none exCandles [exA] (TwinOp.add [exB] :: exOps)) = true ∧
+     isOk (runHexital {} none exCandles [exA, exB] exOps) = true ∧
+     isOk (runHexital {} none exCandles [exB, exA] exOps) = true) ∧
+    runTwin exA.tree {} exCandles (TwinOp.add [exB] :: exOps) = runTwin exA.tree {} exCandles exOps := by
+  refine ⟨⟨?_, ?_, ?_⟩, ?_, ?_⟩
   · simp [Hexital.dedupe, dset]
   · simp [Hexital.dedupe, exA, exB, mkTop, Ind.name, dset]
   · simp [Hexital.dedupe, exA, exB, mkTop, Ind.name, dset]
   · decide +kernel
+  · simp [runTwin, TwinOp.runInd]
 
 end Examples
 
